@@ -127,14 +127,32 @@ assert_frame_cases()
 
 
 @functools.lru_cache(maxsize=512)
-def unconditional_jump_targets(co: CodeType) -> Dict[int, int]:
+def unconditional_jump_neighbours(co: CodeType) -> Dict[int, List[int]]:
+    """For each unconditional jump in *co*: the other places that are
+    inside exactly the same blocks as the jump is. A jump neither enters
+    nor leaves a block, so that is its target, and the instruction before
+    it if execution can continue from there into the jump."""
     from ._lowlevel import _instructions
 
-    return {
-        insn.offset: insn.argval
-        for insn in _instructions(co)
-        if insn.opname in ("JUMP_BACKWARD", "JUMP_BACKWARD_NO_INTERRUPT", "JUMP_FORWARD")
-    }
+    jumps = ("JUMP_BACKWARD", "JUMP_BACKWARD_NO_INTERRUPT", "JUMP_FORWARD")
+    no_fallthrough = jumps + (
+        "RETURN_VALUE",
+        "RETURN_CONST",
+        "RAISE_VARARGS",
+        "RERAISE",
+        "INTERPRETER_EXIT",
+    )
+    result: Dict[int, List[int]] = {}
+    previous = None
+    for insn in _instructions(co):
+        if insn.opname == "EXTENDED_ARG":
+            continue
+        if insn.opname in jumps:
+            result[insn.offset] = [insn.argval]
+            if previous is not None and previous.opname not in no_fallthrough:
+                result[insn.offset].append(previous.offset)
+        previous = insn
+    return result
 
 
 class InconsistentSnapshot(AssertionError):
@@ -206,15 +224,18 @@ def inspect_frame(frame: FrameType) -> FrameDetails:
         # table, since it can't raise - yet a frame is seen there whenever
         # a signal handler, a trace function or another thread looks at
         # it, for that is where the interpreter attends to such things.
-        # A jump neither enters nor leaves a block, so it is inside every
-        # block that its target is inside (and the other way round: of the
-        # two places, go by the one that the table has more to say about).
+        # So is the jump from the end of a 'with' body that the compiler
+        # moved out of line back to the code that calls __exit__. A jump
+        # neither enters nor leaves a block, so it is inside every block
+        # that its target, or the instruction that leads up to it, is
+        # inside: of these places, go by the one that the table has most
+        # to say about.
         position = lasti_before
-        jump_target = unconditional_jump_targets(co).get(lasti_before)
-        if jump_target is not None and len(enclosing_handlers(co, jump_target)) > len(
-            enclosing_handlers(co, lasti_before)
-        ):
-            position = jump_target
+        for place in unconditional_jump_neighbours(co).get(lasti_before, ()):
+            if len(enclosing_handlers(co, place)) > len(
+                enclosing_handlers(co, position)
+            ):
+                position = place
         for start, end, _, depth, _ in _parse_exception_table(co):
             if start <= position <= end:
                 handler_depth = depth
